@@ -444,7 +444,9 @@ sa_addr_port_from_str(sockaddr_storage_p addr,
 				ptm_end = ptm;
 			}
 			ptm ++;
-			port = str2u16(ptm, (size_t)(buf_size - (size_t)(ptm - buf)));
+			if (0 != str2u16_chk(ptm, (size_t)(buf_size - (size_t)(ptm - buf)),
+			    0xffff, &port))
+				return (EINVAL); /* Not a port number. */
 		}/* else - IPv6 and no port. */
 	}
 	if (NULL == ptm_end) {
@@ -507,7 +509,7 @@ sa_addr_to_str(const sockaddr_storage_t *addr, char *buf,
 	case AF_INET:
 	case AF_INET6:
 		if (NULL == inet_ntop(addr->ss_family, sin_addr,
-		    buf, (buf_size - 1)))
+		    buf, buf_size)) /* Size include terminating zero. */
 			return (errno);
 		buf[(buf_size - 1)] = 0; /* Should be not nessesary. */
 		size_ret = strnlen(buf, buf_size);
